@@ -31,7 +31,7 @@ RULE = ("all plans over the calls of strips / numeric / cond mini-domains up to 
         "TrajectoryExporter.parse_plan + export -> file -> TrajectoryParser with problem and with problem=None; joint "
         "trajectories: all sequences of <= 2 joint actions over 2 agents (one call or nop per agent, members applicable "
         "and non-interfering by the reference) through MultiAgentTrajectoryExporter + TrajectoryParser(executing_agents); "
-        "shipped *.trajectory files parsed with every shipped domain that accepts them. non-trivial = a trajectory "
+        "one-agent teams; all-idle steps; a plan naming an unknown action before every plan on the long-lived exporter; object-less trajectories (3 problems x 4 plans); shipped *.trajectory files parsed with every shipped domain that accepts them. non-trivial = a trajectory "
         "with >= 2 steps")
 ASSUMPTIONS = ["states are compared as sets of facts and fluent->value maps; the ':init' / ':state' tag is not part of the value",
                "with problem=None types are those of the lifted signature (documented by the library), names/values still compared"]
